@@ -1,1 +1,145 @@
-/-! STUB — property C04 is not built yet. -/
+import Martian.Lemmas.Tunnel
+/-!
+C04 — blind CONNECT tunnels are byte-transparent both ways and propagate end-of-stream.
+
+All theorems are about `Tunnel.handleConnect` (Model/Tunnel.lean), for every connection kind
+(every `io.Copy`/`bufio` dispatch path), every early-data and read-ahead string and every list of
+events in either direction. A list of events is an arbitrary prefix of a longer script, so a
+statement "for all `up`, `down`" is a statement about every quiescent point of every script.
+Wall-clock promptness is outside the model (measured by the harness).
+-/
+namespace Martian.Props.C04
+open Martian Martian.Tunnel
+
+/-- Client → target: at every quiescent point the target has been written exactly the early data
+(sent in the same segment as the CONNECT head) followed by everything the client has sent since. -/
+theorem tunnel_transparent_up (cfg : Cfg) (ahead early : Bytes) (up down : List Ev) :
+    bytesOf (handleConnect cfg (.ok ahead) early up down).toTarget = early ++ sentBy up := by
+  simp [handleConnect, upPump, run_bytes]
+
+/-- Target → client: after the response head the client has been written exactly the bytes the
+proxy had read ahead with the downstream proxy's head, followed by everything sent since. -/
+theorem tunnel_transparent_down (cfg : Cfg) (ahead early : Bytes) (up down : List Ev) :
+    bytesOf (handleConnect cfg (.ok ahead) early up down).toClient = ahead ++ sentBy down := by
+  cases ahead <;> simp [handleConnect, downPump, run_bytes, bytesOf]
+
+/-- At every quiescent point neither pump holds a byte it has not written. -/
+theorem nothing_retained_at_quiescence (cfg : Cfg) (early : Bytes) (up down : List Ev) :
+    (upPump cfg early up).1.held = [] ∧ (downPump cfg down).1.held = [] := by
+  simp [upPump, downPump, run_shape]
+
+/-- What has been delivered at one quiescent point is a prefix of what is delivered at any later one
+(nothing is taken back, reordered or duplicated by later traffic). -/
+theorem delivery_only_grows (cfg : Cfg) (ahead early : Bytes) (up more down : List Ev) :
+    ∃ rest, bytesOf (handleConnect cfg (.ok ahead) early (up ++ more) down).toTarget =
+      bytesOf (handleConnect cfg (.ok ahead) early up down).toTarget ++ rest := by
+  rw [tunnel_transparent_up, tunnel_transparent_up]
+  cases h : closes up with
+  | false => exact ⟨sentBy more, by simp [sentBy_append_of_open _ _ h]⟩
+  | true => exact ⟨[], by simp [sentBy_append_of_closed _ _ h]⟩
+
+/-- When the client finishes sending, the target is told so (CloseWrite) without any further input,
+exactly once, and after every byte the client sent before. -/
+theorem eof_propagates_to_target (cfg : Cfg) (ahead early : Bytes) (up down : List Ev)
+    (h : Ev.eof ∈ up) :
+    ∃ ws : List Bytes,
+      (handleConnect cfg (.ok ahead) early up down).toTarget = ws.map .write ++ [.closeWrite] ∧
+      ws.flatten = early ++ sentBy up := by
+  have hc := (mem_eof_iff_closes up).1 h
+  cases early with
+  | nil =>
+    refine ⟨writesOf (readerWriteToLoop cfg.target cfg.client) up, ?_, ?_⟩
+    · simp [handleConnect, upPump, run_shape, hc, closeActs, optWrite]
+    · simp [writesOf_flatten]
+  | cons b bs =>
+    refine ⟨(b :: bs) :: writesOf (readerWriteToLoop cfg.target cfg.client) up, ?_, ?_⟩
+    · simp [handleConnect, upPump, run_shape, hc, closeActs, optWrite]
+    · simp [writesOf_flatten]
+
+/-- When the target finishes sending, the client is told so without any further input, exactly
+once, and after every byte the target sent before. -/
+theorem eof_propagates_to_client (cfg : Cfg) (ahead early : Bytes) (up down : List Ev)
+    (h : Ev.eof ∈ down) :
+    ∃ ws : List Bytes,
+      (handleConnect cfg (.ok ahead) early up down).toClient = ws.map .write ++ [.closeWrite] ∧
+      ws.flatten = ahead ++ sentBy down := by
+  have hc := (mem_eof_iff_closes down).1 h
+  cases ahead with
+  | nil =>
+    refine ⟨writesOf (ioCopyLoop cfg.client cfg.target) down, ?_, ?_⟩
+    · simp [handleConnect, downPump, run_shape, hc, closeActs, optWrite]
+    · simp [writesOf_flatten]
+  | cons b bs =>
+    refine ⟨(b :: bs) :: writesOf (ioCopyLoop cfg.client cfg.target) down, ?_, ?_⟩
+    · simp [handleConnect, downPump, run_shape, hc, closeActs, optWrite]
+    · simp [writesOf_flatten]
+
+/-- No end is told "end of stream" while the other end has not finished sending. -/
+theorem no_spurious_eof (cfg : Cfg) (ahead early : Bytes) (up down : List Ev) :
+    (Ev.eof ∉ up → eofSeen (handleConnect cfg (.ok ahead) early up down).toTarget = false) ∧
+    (Ev.eof ∉ down → eofSeen (handleConnect cfg (.ok ahead) early up down).toClient = false) := by
+  constructor
+  · intro h
+    have hc : closes up = false := by
+      cases hx : closes up with
+      | false => rfl
+      | true => exact absurd ((mem_eof_iff_closes up).2 hx) h
+    cases early <;> simp [handleConnect, upPump, run_shape, hc, closeActs, optWrite, eofSeen]
+  · intro h
+    have hc : closes down = false := by
+      cases hx : closes down with
+      | false => rfl
+      | true => exact absurd ((mem_eof_iff_closes down).2 hx) h
+    cases ahead <;> simp [handleConnect, downPump, run_shape, hc, closeActs, optWrite, eofSeen]
+
+/-- A CONNECT whose dial fails is answered 502 with a Warning header; nothing is tunnelled. -/
+theorem dial_failure_502_warning (cfg : Cfg) (early : Bytes) (up down : List Ev) :
+    let o := handleConnect cfg .refused early up down
+    o.status = 502 ∧ o.warning = true ∧ o.toTarget = [] ∧ o.toClient = [] := by
+  simp [handleConnect]
+
+/-- A CONNECT whose dial succeeds is answered 200 on every path. -/
+theorem dial_success_200 (cfg : Cfg) (ahead early : Bytes) (up down : List Ev) :
+    (handleConnect cfg (.ok ahead) early up down).status = 200 := by
+  simp [handleConnect]
+
+/-- Both connections are released (handler returns, deferred Close of both) exactly when both ends
+have finished sending — no further input is needed, and no connection is closed while one
+direction is still open. -/
+theorem both_released_iff_both_finished (cfg : Cfg) (ahead early : Bytes) (up down : List Ev) :
+    (handleConnect cfg (.ok ahead) early up down).released = true ↔ (Ev.eof ∈ up ∧ Ev.eof ∈ down) := by
+  simp [handleConnect, upPump, downPump, run_shape, mem_eof_iff_closes]
+
+/-! ### Regression statements about the previous form of the client-bound pump
+(`io.Copy(brw, cconn)` on a client connection that is not an `io.ReaderFrom`) -/
+
+/-- Whatever the target writes stays in the 4096-byte `bufio.Writer` as long as less than 4096 bytes
+have accumulated: nothing reaches the client at quiescence. -/
+theorem legacy_buffered_pump_retains (bs : Bytes) (h : bs.length < 4096) :
+    bytesOf (Legacy.bufferedRun 4096 ⟨[], false⟩ [.data bs]).2 = [] ∧
+    (Legacy.bufferedRun 4096 ⟨[], false⟩ [.data bs]).1.held = bs := by
+  simp [Legacy.bufferedRun, Legacy.bufferedStep, Nat.div_eq_of_lt h, bytesOf]
+
+/-- Concrete witness (test): the target writes 10 bytes and keeps the tunnel open. -/
+theorem legacy_buffered_pump_counterexample :
+    bytesOf (Legacy.bufferedRun 4096 ⟨[], false⟩ [.data (List.replicate 10 7)]).2 ≠ List.replicate 10 7 := by
+  decide
+
+/-! ### Non-vacuity -/
+
+def tcp : ConnKind := ⟨true, true⟩
+def wrapped : ConnKind := ⟨false, false⟩
+
+/-- test: the hypotheses of the EOF theorems are satisfiable, and the four dispatch paths are all reachable -/
+example : Ev.eof ∈ [Ev.data [1, 2], Ev.eof] := by decide
+example : readerWriteToLoop tcp tcp = .splice ∧ readerWriteToLoop wrapped tcp = .copy32k ∧
+    readerWriteToLoop tcp wrapped = .copy32k ∧ readerWriteToLoop wrapped wrapped = .bufio4k := by decide
+/-- test: one concrete run — early data, traffic both ways, client finishes first -/
+example :
+    let o := handleConnect ⟨wrapped, tcp⟩ (.ok [9]) [1, 2] [.data [3], .eof] [.data [4, 5]]
+    bytesOf o.toTarget = [1, 2, 3] ∧ eofSeen o.toTarget = true ∧
+    bytesOf o.toClient = [9, 4, 5] ∧ eofSeen o.toClient = false ∧ o.released = false := by
+  simp [tunnel_transparent_up, tunnel_transparent_down, sentBy]
+  simp [handleConnect, upPump, downPump, run_shape, closes, closeActs, optWrite, eofSeen, writesOf]
+
+end Martian.Props.C04
